@@ -469,6 +469,10 @@ def extract_item(block, unit, fired_total, clauses, meta_items, mode='verus'):
                     depth += 1
                 elif t.text in ')]}':
                     depth -= 1
+                    if depth < 0:
+                        # trailing expression of the enclosing block (no `;`)
+                        end = k - 1
+                        break
                     if depth == 0 and t.text == '}' and toks[k + 1].text not in (';', '.', '?', 'else') :
                         end = k
                         break
